@@ -2,6 +2,7 @@
 import PjVerif.Drive.Cal
 import PjVerif.Drive.Graph
 import PjVerif.Drive.Sched
+import PjVerif.Drive.Dump
 open Lean Pj.Drive
 
 def dispatch (j : Json) : Json :=
@@ -9,6 +10,7 @@ def dispatch (j : Json) : Json :=
   | "cal" => runCal j
   | "graph" => runGraph j
   | "sched" => runSched j
+  | "dumpenv" => runDump j
   | f => mkObj [("id", fld j "id"), ("error", .str s!"unknown family {f}")]
 
 def main : IO Unit := do
